@@ -271,4 +271,25 @@ def created : List Op → Nat
 def Stamped (p : People) (u : Nat) : Bool := (cmpVal .le (p.tiDead.cell u) (tiVal p.ti)).truthy
 
 
+/-! ### Finalisation of the recorded series (`Sim.finalize`, mode and dtypes regenerated as `Gen.finalizeSim`, `Gen.simResults`)
+
+After the run every series that scales with the population is multiplied by `pop_scale` (the sim stands for
+`n_agents × pop_scale` people).  The product is exact when the series is REPLACED by it (a float series); when it is
+written into the existing array and that array holds integers, every entry is truncated towards zero. -/
+
+/-- assignment of a real into an integer array: truncation towards zero -/
+def truncRat (r : Rat) : Rat := ((r.num.tdiv (r.den : Int) : Int) : Rat)
+
+/-- does finalisation truncate the sim-level series `name`?  (what the code does: regenerated) -/
+def seriesTruncates (name : String) : Bool :=
+  Gen.finalizeSim.1 == "inplace" && Gen.simResults.any (fun r => r.1 == name && r.2.1 == "int")
+
+/-- the recorded value of a count after finalisation -/
+def finalizeVal (truncates : Bool) (s : Rat) (c : Nat) : Rat := if truncates then truncRat ((c : Rat) * s) else (c : Rat) * s
+
+/-- a whole series after finalisation -/
+def finalizeSeries (name : String) (s : Rat) (l : List (Int × Nat)) : List (Int × Rat) :=
+  l.map (fun e => (e.1, finalizeVal (seriesTruncates name) s e.2))
+
+
 end StarsimModel.People
